@@ -188,7 +188,7 @@ class Boolean(Signature):
 
     @bflag.register(bytearray)
     def bflag_bytearray(self, val):
-        self.bool = bool(self.bytes_to_int(val))
+        self.bflag = bool(self.bytes_to_int(val))
 
     def __init__(self):
         super(Boolean, self).__init__()
